@@ -16,7 +16,7 @@ CHECKS = {
     "C02": ("model_checking",
             "TLA+ spec RtmpChunk.tla: ConformantSend (all header-type/form/interleaving choices of RTMP 1.0 5.3.1) against the reference receiver Decode, model-checked by TLC; every TLC-found wire rendered to bytes by the spec and replayed into rtmp.Protocol.ReadMessage",
             "TLC proves on bounded families that the specification's conformant sender and reference receiver agree (DecodeOk, Agree) and that each rule violation is rejected; every wire TLC finds (about 11k in quick, 150k+ plus simulation in thorough) is fed as bytes to the real reader under three segmentations and must deliver exactly the specification's messages, timestamps and error/EOF outcome",
-            "trusts TLC, the LD expander and the transcription of RTMP 1.0 section 5.3 in RtmpChunk.tla; sender timestamps < 2^31; no Abort; bounds per family cfg", "5/C02"),
+            "trusts TLC, the LD expander and the transcription of RTMP 1.0 section 5.3 in RtmpChunk.tla; message timestamps are the 31-bit values the property defines, the sender's clock runs forward and may roll over (deltas mod 2^31; a step back of the 31-bit value counts as a roll-over only if it is less than 2^30 ms ahead, otherwise type 0), extended deltas >= 2^31 not generated; no Abort; bounds per family cfg", "5/C02"),
     "C03": ("model_checking",
             "TLA+ specs RtmpPacket.tla (packet layouts over AMF0, sizes, dispatch function) and RtmpTxn.tla (outstanding-request table, typed waits) model-checked by TLC; TLC-enumerated packet matrix and histories replayed into real rtmp.Protocol endpoints with the pending table compared after every step",
             "TLC checks MatchOnce/OnePerTid on every history of sends, peer items, decodes and typed waits within the bounds (and shows a lookup-without-delete deviation violates it); the full packet matrix (all kinds, optional fields, 65536 user-control event types) is enumerated with the specification's layout/size/dispatch kind and every packet and every history (about 25k quick) is executed by the real code: marshal = layout, Size() exact, unmarshal equal, peer decodes to the protocol's type, transaction table equal to the model's after each step, typed waits return the first match",
@@ -113,6 +113,17 @@ ADDENDA = {
             "; an implementation boundary above the sweep's end is seen only at matrix values or random thorough sizes"),
     "C11": ("", "; every frame the library returned is held and must be unchanged after all later calls (reused output buffers)", ""),
     "C12": ("", "; every marshalled record / sample / NAL unit is held and must be unchanged after all later calls (pooled or reused buffers)", ""),
+    "C02": ("; roll-over of the 31-bit timestamp (Forward / Delta31; the reference receiver reduces after every addition; deviation timestamp-reduced-only-after-extended)",
+            "; sums that pass 2^31 through plain 24-bit deltas (fmt 1/2), through the delta a fmt-3 first chunk repeats and through extended deltas, several roll-overs in a row on two chunk streams", ""),
+    "C13": ("; write-buffer residue sweep (buffers of every residue mod 8); WsPeer.tla: symbolic-octet receiver model (per-frame key and position, decompress flag from RSV1) driven by a conformant foreign sender, four receiver deviations",
+            "; client fragment lengths and their running sums take every residue mod 4 and mod 8; every stream of a WsWire-accepted foreign sender (one message cut at any 2-3 of 14 lengths around the key and word sizes, lists of 2-3 messages compressed or not in every order with pings between frames, 4 mask-key schedules) is written into a real Conn of either role and must be read back byte for byte",
+            "; symbolic XOR is exact for independent key octets, the harness uses 4 concrete key schedules incl. degenerate keys; foreign messages are at most 101 octets; a process-killing library panic in a stage is a verdict when seen in 2 of up to 3 runs"),
+    "C14": ("; configuration variable bufsize that no action reads, two-copy lockstep model MC_WsReaderBuf (invariant BufferBlind), deviation control-needs-buffer",
+            "; for read buffer sizes {default, 1, 2, 13, 14, 15, 64, 124, 125, 126, 1024} crossed with control frames of every legal payload size around the buffer and data frames around it, the same sizes swept in every other family, server role also through the real Upgrader with hijacked readers of 16-4096 bytes",
+            "; write buffer sizes not varied here (C13); a failing run that took 0.8 s or longer is driven again (the library's default handlers write with a 1 s deadline and drop the answer silently when starved)"),
+    "C15": ("; a reader process whose Ping/Close handlers (default and application) answer through the control path, application pauses of the data writer with its message open (after NextWriter, bytes buffered, between two frames); invariant MsgIntact; six named deviations",
+            "; the frames of a data message are exactly the data writer's own transport writes; peer Ping/Close frames are delivered at every point of the writer's message, including inside WriteMessage",
+            "; the reader writes only from Ping/Close handlers of well-formed peer frames; default handlers have the writeWait deadline, may give up and their result is not observed; a transport failure and its latching are separate steps"),
     "C16": ("; JoseHist.tla: 1..3 signers / recipients with their own algorithms and headers, histories of Open (right / wrong / foreign keys in any order) and Reserialize on ONE parsed object (TLC: HistoryFree, HAcceptOnlyIf, HRoundTrip; deviations open-consumes-object, shared-entry-header), behaviours replayed on one parsed object",
             "; every party's key of a 1..3-party general-JSON object opens it at any point of any sequence of opens with any keys, verdicts do not depend on the history of the parsed object, a re-serialized copy opens as a no-history copy would, per-entry tampering is rejected for the owning party's key",
             "; several-party algorithm alphabets are tier subsets, several-recipient JWE without zip and aad, history length 2 (3 for one party in thorough); the verdict for another party's tampered entry is free; /repo is compiled under its own go.mod's loop-variable semantics"),
